@@ -284,22 +284,7 @@ func (s *SwapStateMachine) exponentialBackoffAndJitter() {
 
 // Recover tries to continue from the current state, by doing the associated Action
 func (s *SwapStateMachine) Recover() (bool, error) {
-	log.Infof("[Swap:%s]: Recovering from state %s", s.SwapId.String(), s.Current)
-	state, ok := s.States[s.Current]
-	if !ok {
-		return false, fmt.Errorf("unknown state: %s for swap %s", s.Current, s.SwapId.String())
-	}
-
-	if !ok || state.Action == nil {
-		// configuration error
-		return false, ErrFsmConfig
-	}
-	if state.FailOnrecover {
-		return s.SendEvent(Event_ActionFailed, nil)
-	}
-
-	nextEvent := state.Action.Execute(s.swapServices, s.Data)
-	err := s.swapServices.swapStore.UpdateData(s)
+	nextEvent, err := s.recoverCurrentState()
 	if err != nil {
 		return false, err
 	}
@@ -307,6 +292,36 @@ func (s *SwapStateMachine) Recover() (bool, error) {
 		return false, nil
 	}
 	return s.SendEvent(nextEvent, nil)
+}
+
+// recoverCurrentState runs the action of the current state again and returns
+// the event it produced. The swap is already registered when it is recovered,
+// so events of the peer or the chain may arrive concurrently: like SendEvent,
+// the action and the store update run under the mutex.
+func (s *SwapStateMachine) recoverCurrentState() (EventType, error) {
+	s.mutex.Lock()
+	defer s.mutex.Unlock()
+
+	log.Infof("[Swap:%s]: Recovering from state %s", s.SwapId.String(), s.Current)
+	state, ok := s.States[s.Current]
+	if !ok {
+		return NoOp, fmt.Errorf("unknown state: %s for swap %s", s.Current, s.SwapId.String())
+	}
+
+	if !ok || state.Action == nil {
+		// configuration error
+		return NoOp, ErrFsmConfig
+	}
+	if state.FailOnrecover {
+		return Event_ActionFailed, nil
+	}
+
+	nextEvent := state.Action.Execute(s.swapServices, s.Data)
+	err := s.swapServices.swapStore.UpdateData(s)
+	if err != nil {
+		return NoOp, err
+	}
+	return nextEvent, nil
 }
 
 // IsFinished returns true if the swap is already finished
